@@ -6,7 +6,7 @@ package main
 //
 //	op:     reflect <HEX of FileDescriptorSet (generated files only)> <descriptor summary tokens…>
 //	result: nolink
-//	        | set=<ok SHAPE | err | panic | collide> cache=[ <splitName>:<ok|err|panic> … ]
+//	        | set=<ok SHAPE | err | panic | collide> cache=[ <splitName>:<Schema class>:<NewRoot class> … ]
 //
 // ORACLE (the property as stated): SchemaSetFromFiles / SchemaCache.Schema / Reflector.NewRoot
 // return a value or an error — never panic, hang or overflow the stack; on success every
@@ -277,7 +277,6 @@ func reflectOnce(h *vh.H, op string, fds *descriptorpb.FileDescriptorSet) string
 			class = "nil"
 		}
 		h.Count("reflect.cache." + class)
-		cres = append(cres, vh.Hex([]byte(sn))+":"+class)
 		if class == "ok" {
 			checkRoot(h, op, "cache", root, idx, map[string]bool{})
 		}
@@ -286,14 +285,21 @@ func reflectOnce(h *vh.H, op string, fds *descriptorpb.FileDescriptorSet) string
 		var rr j5reflect.Root
 		var rerr error
 		site, panicked, msg = guard(func() { rr, rerr = refl.NewRoot(dynamicpb.NewMessage(md)) })
+		rootClass := "ok"
 		switch {
 		case panicked:
+			rootClass = "panic"
 			fail(h, "panic:NewRoot:"+site, op, string(md.FullName())+": "+msg)
 		case rr == nil && rerr == nil:
+			rootClass = "nil"
 			fail(h, "newroot-nil-nil", op, string(md.FullName())+": NewRoot returned (nil, nil)")
-		case class == "ok" && rerr != nil:
-			fail(h, "newroot-error-after-schema-ok", op, string(md.FullName())+": "+rerr.Error())
+		case rerr != nil:
+			rootClass = "err"
+			if class == "ok" {
+				fail(h, "newroot-error-after-schema-ok", op, string(md.FullName())+": "+rerr.Error())
+			}
 		}
+		cres = append(cres, vh.Hex([]byte(sn))+":"+class+":"+rootClass)
 
 		classes = append(classes, class)
 		dup := false
